@@ -603,6 +603,13 @@ func worker(job string) {
 	if os.Getenv("VERIF_TIER") == "thorough" {
 		deadline = time.Now().Add(scaled(20 * time.Minute))
 	}
+	// the parent also gives every pass an absolute end (a pass with more jobs than cores runs them in waves):
+	// past it a job stops with what it has completed (reported as incomplete, never as a verdict)
+	if ms, err := strconv.ParseInt(os.Getenv("VX_PASS_END_UNIXMS"), 10, 64); err == nil && ms > 0 {
+		if end := time.UnixMilli(ms); end.Before(deadline) {
+			deadline = end
+		}
+	}
 	for b := 0; b <= sc.PB; b++ {
 		st := vx.Explore(vx.Options{PreemptBound: b, EnvBound: sc.EB, MaxExecs: sc.MaxExecs, Deadline: deadline, RaceLog: raceLog},
 			func(prefix []int) (vsched.Result, any) { r, o := runOnce(sc, prefix); return r, o },
@@ -919,7 +926,12 @@ func main() {
 			perJob = scaled(24 * time.Minute)
 		}
 		t0 := time.Now()
-		outs := vx.RunWorkers(self, []string{"VERIF_TIER=" + c.Tier}, jobs, c.Workers(), perJob)
+		passLen := scaled(70 * time.Second)
+		if thorough {
+			passLen = scaled(12 * time.Minute)
+		}
+		passEnd := func() string { return fmt.Sprintf("VX_PASS_END_UNIXMS=%d", time.Now().Add(passLen).UnixMilli()) }
+		outs := vx.RunWorkers(self, []string{"VERIF_TIER=" + c.Tier, passEnd()}, jobs, c.Workers(), perJob)
 		c.Set("sched_pass_wall_s", int(time.Since(t0).Seconds()))
 		perScenario := map[string]any{}
 		defer func() { c.Set("per_scenario", perScenario) }()
@@ -983,7 +995,7 @@ func main() {
 			rjobs = append(rjobs, s.String())
 		}
 		t1 := time.Now()
-		routs := vx.RunWorkers(raceBin, []string{"GORACE=log_path=" + raceLog + " halt_on_error=0", "VX_RACELOG=" + raceLog, "VERIF_TIER=" + c.Tier}, rjobs, c.Workers(), perJob)
+		routs := vx.RunWorkers(raceBin, []string{"GORACE=log_path=" + raceLog + " halt_on_error=0", "VX_RACELOG=" + raceLog, "VERIF_TIER=" + c.Tier, passEnd()}, rjobs, c.Workers(), perJob)
 		c.Set("race_pass_wall_s", int(time.Since(t1).Seconds()))
 		merge(routs, "race")
 		matches, _ := filepath.Glob(raceLog + ".*")
